@@ -138,4 +138,39 @@ inductive WClass where
 `thr w` is `1.0 - min(w,1)`, both as exact rationals `num/den` scaled to a common denominator `D`. -/
 def coinAbs (frac : Nat → Nat) (thr : Int) (v : Nat) : Bool := decide ((frac v : Int) > thr)
 
+/-! ## Concurrent callers
+
+`Uint64` is `Read` (the whole read of 8 bytes under `randomStreamMutex`) followed by a decode of a
+buffer **local to the call**. With that shape a call is atomic with respect to the stream, so a
+concurrent execution is described by its lock order: `sched` names the goroutine of each successive
+call. -/
+
+/-- the (goroutine, word) pairs of a concurrent execution with lock order `sched`. -/
+def runSched : List Nat → Stream → List (Nat × Nat)
+  | t :: ts, u :: r => (t, u % 18446744073709551616) :: runSched ts r
+  | _, _ => []
+
+/-- what goroutine `t` received, in its program order. -/
+def drawsOf (t : Nat) (ev : List (Nat × Nat)) : List Nat := (ev.filter (·.1 == t)).map (·.2)
+
+/-! ## Salted seeds
+
+`newSaltedPRNGSeed(seed, salt) = HKDF-SHA3-256(secret = seed, salt, info = none)[0:32]`. The only
+place the salt enters is the key of the extract step's HMAC, i.e. the HMAC key block: the salt
+zero-padded to the block size of SHA3-256 (136 bytes), or its hash `H salt` (padded) when longer.
+Everything after that block is the parameter `F` (HMAC extract + expand); `H` and `F` are not
+modelled. -/
+
+def hmacBlock : Nat := 136
+
+def saltKey (H : List UInt8 → List UInt8) (salt : List UInt8) : List UInt8 :=
+  let k := if salt.length ≤ hmacBlock then salt else H salt
+  k ++ List.replicate (hmacBlock - k.length) 0
+
+def saltedSeed (H : List UInt8 → List UInt8) (F : List UInt8 → List UInt8 → List UInt8)
+    (seed salt : List UInt8) : List UInt8 := F seed (saltKey H salt)
+
+/-- a salt without its trailing NUL bytes. -/
+def stripZ (s : List UInt8) : List UInt8 := (s.reverse.dropWhile (· == 0)).reverse
+
 end Prng
